@@ -338,6 +338,8 @@ TARGETS = list(GL.TARGETS) + [
     ("src/bitvector/mod.rs", "BitVectorBitPositionsIter", "Iterator::next", "g_pi0_next", {"BIT": False, "Item": "usize"}),
     ("src/bitvector/mod.rs", "BitVectorIter", "Iterator::next", "g_bvit_next", {"Item": "bool"}),
     ("src/bitvector/mod.rs", "BitVectorIter", "ExactSizeIterator::len", "g_bvit_len", {}),
+    ("src/bitvector/mod.rs", "BitVectorIntoIter", "Iterator::next", "g_bvinto_next", {"Item": "bool"}),
+    ("src/bitvector/mod.rs", "BitVectorIntoIter", "ExactSizeIterator::len", "g_bvinto_len", {}),
     ("src/bitvector/mod.rs", "BitVector", "ones", "g_bv_ones", {"BIT": True}),
     ("src/bitvector/mod.rs", "BitVector", "ones_with_pos", "g_bv_ones_with_pos", {"BIT": True}),
     ("src/bitvector/mod.rs", "BitVector", "zeros", "g_bv_zeros", {"BIT": False}),
@@ -1860,6 +1862,8 @@ class FnT5(FnTranslator):
             return "usize"
         if k == "mcall" and e[2] == "leading_zeros" and not e[3] and self.ty(e[1], None, env) == "@T":
             return "u32"
+        if k == "mcall" and e[2] in ("is_some", "is_none") and not e[3] and isinstance(self.ty(e[1], None, env), tuple) and self.ty(e[1], None, env)[0] == "option":
+            return "bool"
         if k == "mcall" and e[2] == "trailing_zeros" and not e[3] and self.ty(e[1], None, env) in INT:
             return "u32"
         if k == "mcall" and e[2] in ("max", "min") and len(e[3]) == 1 and (self.ty(e[1], None, env) in INT or self.ty(e[3][0], None, env) in INT):
@@ -2548,6 +2552,9 @@ class FnT5(FnTranslator):
             if t in INT:
                 return str(INT[t] // 8), True
             self.fail("size_of::<%s>()" % (t,))
+        if k == "mcall" and e[2] in ("is_some", "is_none") and not e[3] and isinstance(self.ty(e[1], None, env), tuple) and self.ty(e[1], None, env)[0] == "option":
+            a = self.val(e[1], None, cx)
+            return "match %s with Some _ => %s | None => %s end" % (a, "true" if e[2] == "is_some" else "false", "false" if e[2] == "is_some" else "true"), True
         if k == "mcall" and e[2] == "trailing_zeros" and not e[3] and self.ty(e[1], None, env) in INT:
             t = self.ty(e[1], None, env)
             return app("tzcnt", str(INT[t]), self.val(e[1], t, cx)), True
